@@ -426,6 +426,78 @@ def check(run):
                                     f"a smaller box can exclude the triangle that holds the closest point", key=key_of("C12-P", "proximity-box"))
     run.assume("real arithmetic; which region of closest_point a query falls in (the inequalities on d1..d6), general-position margins, the r-tree / kd-tree / embree "
                "libraries and contains_points' parity logic are not decided")
+    # ------------------------------------------------------------------ P2 candidate ids are face indices
+    run.rule("P2", "proximity candidates: the r-tree queried by nearby_faces is built on ALL triangles of the mesh in face order (mesh.triangles_tree), because the ids it returns "
+                   "are used as indices into mesh.faces / mesh.triangles; a tree over a filtered subset numbers its boxes by position in the subset")
+    nf = ix.func("trimesh.proximity:nearby_faces")
+
+    def _tree_exprs(fn, e, depth=0):
+        """expressions the tree value can come from: locals and returns of repository helpers followed"""
+        if depth > 3:
+            return [(fn, e)]
+        if isinstance(e, ast.Name):
+            out = []
+            for st in ast.walk(fn.node):
+                if isinstance(st, ast.Assign) and len(st.targets) == 1 and isinstance(st.targets[0], ast.Name) and st.targets[0].id == e.id:
+                    out += _tree_exprs(fn, st.value, depth + 1)
+            return out or [(fn, e)]
+        if isinstance(e, ast.Call):
+            try:
+                r = ix.resolve_expr(fn.module, e.func)
+            except Exception:
+                r = None
+            if hasattr(r, "node") and hasattr(r, "qualname") and isinstance(r.node, ast.FunctionDef) and r.module.name.startswith("trimesh") and r.qualname != "bounds_tree":
+                out = []
+                for ret in ast.walk(r.node):
+                    if isinstance(ret, ast.Return) and ret.value is not None:
+                        out += _tree_exprs(r, ret.value, depth + 1)
+                return out or [(fn, e)]
+        if isinstance(e, ast.Subscript) and isinstance(e.slice, ast.Constant) and "_cache" in ast.unparse(e.value):
+            # a memo entry: what was stored under that key in the same function
+            out = []
+            for st in ast.walk(fn.node):
+                if isinstance(st, ast.Assign) and isinstance(st.targets[0], ast.Subscript) and ast.unparse(st.targets[0]) == ast.unparse(e):
+                    out += _tree_exprs(fn, st.value, depth + 1)
+            return out or [(fn, e)]
+        return [(fn, e)]
+
+    recv = [c_.func.value for c_ in ast.walk(nf.node) if isinstance(c_, ast.Call) and isinstance(c_.func, ast.Attribute) and c_.func.attr in ("intersection", "nearest")]
+    if not recv:
+        run.instance("P2", nf.where, "no r-tree query of a recognised form in nearby_faces - NOT decided", True, nontrivial=False)
+        run.assume("nearby_faces: r-tree query not recognised")
+    for rv in recv[:1]:
+        for fn_, e_ in _tree_exprs(nf, rv):
+            txt = ast.unparse(e_)
+            whole = txt.endswith(".triangles_tree") or (txt.replace(" ", "") in ("bounds_tree(mesh.triangles)", "triangles.bounds_tree(mesh.triangles)"))
+            subset = False
+            if isinstance(e_, ast.Call) and ast.unparse(e_.func).split(".")[-1] in ("bounds_tree", "_bounds_tree") and e_.args:
+                # backward slice of the argument over the locals of the function it sits in
+                seen_, todo_, parts_ = set(), [e_.args[0]], []
+                while todo_:
+                    x_ = todo_.pop()
+                    parts_.append(x_)
+                    for nm_ in ast.walk(x_):
+                        if isinstance(nm_, ast.Name) and nm_.id not in seen_:
+                            seen_.add(nm_.id)
+                            todo_ += [st_.value for st_ in ast.walk(fn_.node) if isinstance(st_, ast.Assign) and len(st_.targets) == 1
+                                      and isinstance(st_.targets[0], ast.Name) and st_.targets[0].id == nm_.id]
+                for x_ in parts_:
+                    for sub_ in ast.walk(x_):
+                        if isinstance(sub_, ast.Subscript) and "triangles" in ast.unparse(sub_.value) and not isinstance(sub_.slice, (ast.Slice, ast.Constant)) \
+                                and not (isinstance(sub_.slice, ast.Tuple) and all(isinstance(y_, (ast.Slice, ast.Constant)) for y_ in sub_.slice.elts)):
+                            subset = True
+                if not subset and any("mesh.triangles" in ast.unparse(x_) for x_ in parts_):
+                    whole = True
+            where_ = f"{fn_.module.rel}:{e_.lineno} {fn_.qualname}"
+            if whole:
+                run.instance("P2", where_, f"candidate tree `{txt[:50]}`: every triangle, in face order", True)
+            elif subset:
+                run.instance("P2", where_, f"candidate tree `{txt[:60]}` is built on a subset of the triangles", False)
+                run.violation("P2", where_, f"nearby_faces can query `{txt[:70]}`, an r-tree over a SUBSET of the triangles: its ids count positions in the subset, but closest_point "
+                                            f"uses them as indices into mesh.triangles - whenever a face was filtered out every later candidate is another triangle",
+                              key=key_of("C12-P2", "subset-tree"))
+            else:
+                run.instance("P2", where_, f"candidate tree `{txt[:50]}` - NOT decided", True, nontrivial=False)
     return {
         "explanation": "Algebraic abstract interpretation (rational identities) of planes_lines, points_to_barycentric and the seven regions of triangles.closest_point; "
         "canonical-form structural checks of ray_triangle_id (hit test, mask sequence, forward filter, first hit, tree) and of the two pruning boxes "
